@@ -8,6 +8,7 @@ package ristretto
 import (
 	"fmt"
 	"sort"
+	"strings"
 	"testing"
 
 	"pgregory.net/rapid"
@@ -139,7 +140,7 @@ func vfJudge(d *vfDecision) (st vfDecisionStats, sig, msg string) {
 	}
 	if d.Added {
 		if used+d.InCost > d.MaxCost {
-			return st, "C09/admitted-without-room", fmt.Sprintf("newcomer cost %d admitted with used %d MaxCost %d after evicting %v", d.InCost, used, d.MaxCost, d.Victims)
+			return st, "C03/admitted-without-room", fmt.Sprintf("newcomer cost %d admitted with used %d MaxCost %d after evicting %v", d.InCost, used, d.MaxCost, d.Victims)
 		}
 		return st, "", ""
 	}
@@ -253,17 +254,17 @@ func vfRunPolicyCase(c *vfPolicyCase) (st vfDecisionStats, sig, msg string) {
 		used += cst
 	}
 	if len(want) != len(p.evict.keyCosts) || used != p.evict.used {
-		return st, "C09/accounting-after-decision", fmt.Sprintf("after Add: accounted keys %v used %d, expected keys %v used %d", vfKeys(p.evict.keyCosts), p.evict.used, vfKeys(want), used)
+		return st, "C03/accounting-after-decision", fmt.Sprintf("after Add: accounted keys %v used %d, expected keys %v used %d", vfKeys(p.evict.keyCosts), p.evict.used, vfKeys(want), used)
 	}
 	for k, cst := range want {
 		if p.evict.keyCosts[k] != cst {
-			return st, "C09/accounting-after-decision", fmt.Sprintf("after Add: key %d accounted %d expected %d", k, p.evict.keyCosts[k], cst)
+			return st, "C03/accounting-after-decision", fmt.Sprintf("after Add: key %d accounted %d expected %d", k, p.evict.keyCosts[k], cst)
 		}
 	}
 	// victims carry the accounted cost of the evicted key
 	for _, v := range victims {
 		if cst, ok := d.Costs[v.Key]; ok && v.Cost != cst {
-			return st, "C09/victim-cost", fmt.Sprintf("victim %d reported with cost %d, accounted %d", v.Key, v.Cost, cst)
+			return st, "C03/victim-cost", fmt.Sprintf("victim %d reported with cost %d, accounted %d", v.Key, v.Cost, cst)
 		}
 	}
 	return
@@ -382,13 +383,16 @@ func vfPolicyEvidence(ev *vfEvidence, prefix string, st vfDecisionStats, hash ui
 	ev.Sample(nt, sample)
 }
 
-func TestVf_C09_Policy(t *testing.T) {
-	ev := vfNewEvidence(t, "C09")
+func vfPolicyTest(t *testing.T, owner string) {
+	ev := vfNewEvidence(t, owner)
 	rapid.Check(t, func(t *rapid.T) {
 		c := vfGenPolicyCase(t)
 		st, sig, msg := vfRunPolicyCase(c)
-		if sig != "" {
-			t.Fatalf("%s", vfFail("C09", "policy", sig, c, "%s", msg))
+		if strings.HasPrefix(sig, owner+"/") {
+			t.Fatalf("%s", vfFail(owner, "policy", sig, c, "%s", msg))
+		} else if sig != "" {
+			ev.Excluded("diverged_other=" + sig) // an assertion of the shared judge that belongs to the other property
+			return
 		}
 		h := vfNewHasher()
 		h.Add(uint64(c.NumCounters))
@@ -402,6 +406,11 @@ func TestVf_C09_Policy(t *testing.T) {
 	})
 }
 
+// C09: the choice of victims / rejection. C03: the accounting of the same decisions (admitted only with
+// room, accounted keys and used after the decision, victims reported with their accounted cost).
+func TestVf_C09_Policy(t *testing.T) { vfPolicyTest(t, "C09") }
+func TestVf_C03_Policy(t *testing.T) { vfPolicyTest(t, "C03") }
+
 func TestVfReplay_C09(t *testing.T) {
 	var c vfPolicyCase
 	if !vfLoadReplay(t, &c) {
@@ -410,7 +419,7 @@ func TestVfReplay_C09(t *testing.T) {
 	// the sampling order is the runtime's choice: repeat the decision
 	for i := 0; i < 300; i++ {
 		if _, sig, msg := vfRunPolicyCase(&c); sig != "" {
-			t.Fatalf("%s", vfFail("C09", "replay", sig, &c, "%s", msg))
+			t.Fatalf("%s", vfFail(sig[:3], "policy", sig, &c, "%s", msg))
 		}
 	}
 }
